@@ -3,8 +3,8 @@ package props
 // C04 — Marshal(Unmarshal(S)) reconstructs S.
 
 import (
-	"reflect"
 	"fmt"
+	"reflect"
 	"strings"
 
 	stackage "github.com/JesseCoretta/go-stackage"
@@ -61,7 +61,7 @@ func eqUnmarshalEntry(got any, e Node, path string, asCondExpr bool) error {
 		if kw, _ := row[1].(string); kw != e.KW {
 			return fmt.Errorf("%s: condition keyword %#v, want %q", path, row[1], e.KW)
 		}
-		if op, _ := row[2].(stackage.Operator); op != e.Op.Value() {
+		if op, _ := row[2].(stackage.Operator); !sameOp(op, e.Op.Value()) {
 			return fmt.Errorf("%s: condition operator %#v, want %#v", path, row[2], e.Op.Value())
 		}
 		return eqUnmarshalEntry(row[3], *e.Expr, path+".expr", true)
@@ -94,7 +94,7 @@ func eqRealCond(c stackage.Condition, e Node, path string) error {
 	if c.Keyword() != e.KW {
 		return fmt.Errorf("%s: Keyword()=%q, want %q", path, c.Keyword(), e.KW)
 	}
-	if c.Operator() != e.Op.Value() {
+	if !sameOp(c.Operator(), e.Op.Value()) {
 		return fmt.Errorf("%s: Operator()=%#v, want %#v", path, c.Operator(), e.Op.Value())
 	}
 	return eqRealValue(c.Expression(), *e.Expr, path+".expr")
@@ -321,7 +321,7 @@ func c04TreeGen(tier Tier) TreeGen {
 		Kinds: stackKinds,
 		Leaf:  func(t *rapid.T) Val { return genPrimVal(t, true, true) },
 		Conds: true, CondExprStack: true, CondExprCond: true, NotAsCondExpr: true,
-		NilLeaves: true, EmptyStacks: true, Caps: true, IndexOpts: true, FIFOOpt: true, Options: true, Ambient: true, WideRuns: true, NoNestAfter: true, ReadOnlyNodes: true,
+		NilLeaves: true, EmptyStacks: true, Caps: true, IndexOpts: true, FIFOOpt: true, Options: true, Ambient: true, WideRuns: true, NoNestAfter: true, ReadOnlyNodes: true, RejectValidity: true,
 	}
 	if tier.Thorough {
 		g.MaxDepth, g.MaxWidth, g.Budget = 5, 8, 55
